@@ -64,3 +64,108 @@ def run_c01(ctx):
                 "distinct_nontrivial = distinct domain texts driven")
     ctx.assumptions += ["a supported-fragment text that the library rejects counts as a violation (DESIGN 6/C01)",
                         "constructs the specification cannot give a meaning to (either types) admit any outcome"]
+
+
+def _export_cases(ctx, n, base, **kw):
+    cases = []
+    for i in range(n):
+        c = gen_hist.gen_case(ctx.seed, base + i, **kw)
+        c["walk"] = 3
+        cases.append(c)
+    return cases
+
+
+def _fixture_export_cases(base):
+    return [{"id": base + i, "path": d, "prob_path": f, "seed": i, "walk": 3} for i, (f, d) in enumerate(fixtures.problems())]
+
+
+def _count_comparisons(tf):
+    """number of (action call, state) pairs on which TLC compared source and exported domain"""
+    total = 0
+    for line in open(tf):
+        h = json.loads(line)
+        vocab = objs = None
+        for e in h["ev"]:
+            if e["c"] == "ParseDomain" and "vocab" in e["out"]:
+                vocab = e["out"]["vocab"]
+            if e["c"] == "ParseProblem" and "prob" in e["out"] and objs is None:
+                objs = e["out"]["prob"]["objs"]
+            if e["c"] == "ExportDomain" and "tree" in e["out"] and vocab and objs is not None:
+                if "calls" in e:
+                    total += len(e["calls"]) * len(e["states"])
+                    continue
+                parent = {a: b for a, b in vocab["types"]}
+
+                def sub(a, b):
+                    while a is not None:
+                        if a == b or b == "object":
+                            return True
+                        a = parent.get(a)
+                    return False
+                names = list(objs) + list(vocab["consts"])
+                for _, params in vocab["actions"]:
+                    k = 1
+                    for _, ty in params:
+                        k *= sum(1 for _, t in names if sub(t, ty))
+                    total += k * len(e["states"])
+    return total
+
+
+def run_c08(ctx):
+    quick = ctx.quick
+    hashseeds = (0, 1, 2) if quick else tuple(range(16))
+    ctx.mc("MC_Grammar", {"Mode": '"eff"', "Depth": 1 if quick else 2, "NVals": 2}, ["Classified", "ReadBack"], label="MC_Grammar:eff")
+    cases = _export_cases(ctx, 150 if quick else 3000, 60000)
+    cases += _fixture_export_cases(950000)
+    tf = ctx.drive("export", cases, hashseeds=hashseeds)
+    ctx.validate(tf, {c["id"]: c for c in cases}, driver="export")
+    n = 0
+    for line in open(tf):
+        h = json.loads(line)
+        if sum(1 for e in h["ev"] if e["c"] == "ExportDomain") == 2:
+            ctx.nontrivial.add(h.get("text", ""))
+        n += sum(1 for e in h["ev"] if e["c"] == "ExportDomain")
+        if len(ctx.samples) < 2:
+            ctx.sample({"source": h.get("text", "")[:400], "exported": h.get("exported", "")[:400]})
+    ctx.extra["export_events"] = n
+    ctx.extra["programs"] = n
+    ctx.extra["disagreements_checked"] = _count_comparisons(tf)
+    ctx.rule = ("random 3-7-action typed domains (conditions with or/forall/numeric comparisons, when and forall-when effects, "
+                "constants) and every (domain, problem) pair shipped under tests/: DomainExporter text -> independent reader -> "
+                "the specification's own reading D2; TLC checks vocabulary(D2) = vocabulary(D), the library's re-parse of the "
+                "text has that vocabulary too, and for every action, every type-correct call over the universe (a sample for "
+                "fixtures) and every listed state: Holds(D2) = Holds(D) and Succ(D2) = Succ(D); then a second export/parse "
+                "round. distinct_nontrivial = distinct source domains that went through two export rounds")
+    ctx.assumptions += ["numeric constants of generated domains are representable at the exporter's 2 decimals",
+                        "conditions whose fluents cancel or are multiplied by literal zero are not generated (the simplifier that "
+                        "prints nested conditions folds them to constant comparisons the parser rejects; see DESIGN 8)"]
+
+
+def run_c09(ctx):
+    quick = ctx.quick
+    import gen_problem
+    rng = random.Random(ctx.seed)
+    hashseeds = (0, 1, 2) if quick else tuple(range(16))
+    ctx.mc("MC_Problem", {}, ["BaseWellFormed", "ReadBack"], workers=4)
+    cases = []
+    i = 0
+    while len(cases) < (200 if quick else 4000):
+        i += 1
+        c = gen_problem.gen_problem(rng, 70000 + i, repeats=True)
+        if c["kind"] != "valid":
+            continue
+        cases.append({"id": c["id"], "dom": c["dom"], "prob": c["tree"], "seed": i, "walk": 0})
+    cases += _fixture_export_cases(960000)
+    tf = ctx.drive("export", cases, hashseeds=hashseeds)
+    ctx.validate(tf, {c["id"]: c for c in cases}, driver="export")
+    for line in open(tf):
+        h = json.loads(line)
+        if any(e["c"] == "ExportProblem" and "tree" in e["out"] for e in h["ev"]):
+            ctx.nontrivial.add(h["id"])
+    ctx.sample({"case": cases[0]["id"], "events": ["ParseProblem", "ExportProblem", "ParseProblem", "ExportProblem"]})
+    ctx.rule = ("random well-formed problems over a typed domain with constants (typed / grouped / untyped object lists, "
+                "zero-arity atoms, constants and repeated arguments in facts and fluents, integer/decimal/negative/exponent "
+                "values, goal literals and numeric goals, empty sections) and every problem shipped under tests/: "
+                "ProblemExporter text -> independent reader -> the specification's reading; TLC checks name, domain, objects, "
+                "initial facts, fluent values and goals against the source problem; the library re-parses the text and the "
+                "result is judged again, and exported once more. distinct_nontrivial = distinct problems exported")
